@@ -65,7 +65,7 @@ def main():
         try:
             for c in checks:
                 t0 = time.time()
-                rc, out = sh('./check %s --tier quick' % c, cwd=VERIF)
+                rc, out = sh('./check %s --tier quick' % c, cwd=VERIF, env={'VERIF_EVIDENCE_DIR': '/tmp/seedchk_evidence'})
                 viol = [l for l in out.splitlines() if l.startswith('VIOLATION')]
                 first = [l for l in out.splitlines() if l.startswith(('DIVERGENCE', 'MISMATCH', 'TLC:', 'TRACE'))][:2]
                 meta['checks'][c] = {'exit': rc, 'violation_lines': len(viol), 'first': first, 'wall_s': round(time.time() - t0, 1)}
